@@ -145,6 +145,52 @@ PROPS = {
             "implementation returned a different value/error kind on this input (for spec-disagreement: a different multiple than "
             "the one the rounding mode prescribes counted from midnight).",
     },
+    "C13": {
+        "lean_modules": ["TemporalModel.Props.C13"],
+        "suites": ["c13"],
+        "spec_ops": {"tz_inst": "tz_inst_spec", "tz_wall": "tz_wall_spec"},
+        "level_text": "Proof, over arbitrary transition tables (Zone = initial offset + list of (instant, new offset)): "
+                      "C13_possible_iff / C13_possible_sorted (the instants of a wall-clock reading are exactly the solutions of "
+                      "`instant + offset at that instant = reading`, ascending), C13_wall_exact (the date-time computed for an instant "
+                      "is a real calendar day with a valid time and reads back as instant + offset, for every instant of the range "
+                      "and every offset up to two days), C13_disambiguate_matches (unique / earlier / later / reject), "
+                      "C13_gap_any_size (a skipped reading in a one-transition zone: the one-day probes read the offsets before and "
+                      "after, and the re-resolved instants are reading - old offset (compatible, later) and reading - new offset "
+                      "(earlier), for every gap from one second to almost two days), C13_exact_offset / C13_ignore_offset / "
+                      "C13_prefer_reject (Z and `use` denote the exact instant, `ignore` the wall clock, `prefer`/`reject` match "
+                      "exactly or to the minute). Tie: fixed offsets and random synthetic zones (0-6 transitions, changes from one "
+                      "second to more than a day, spacing from seconds to years) served by a provider written in the harness; "
+                      "instants and readings concentrated on transitions; getters, PlainDateTime/PlainDate -> ZonedDateTime, "
+                      "from_partial, from_str with offsets/Z x 4 disambiguations x 4 offset options. The implementation is compared "
+                      "both with the as-coded model and with the specification function Spec/Zone.lean (spec_ops).",
+        "level_note": "Trusted: Lean kernel (+propext, Classical.choice, Quot.sound); hand model of timezone.rs / "
+                      "zoneddatetime.rs (interpret_isodatetime_offset, disambiguate, start of day); the synthetic provider (harness) "
+                      "and Zone.lookup/possible (model) as the meaning of 'the zone's rules'; multi-transition gaps are covered by the "
+                      "spec-level comparison, not by a theorem. Real IANA data through the bundled provider is C15.",
+        "why_difference_is_violation":
+            "The model resolves wall-clock readings as proved in C13_* (and the specification function states the property "
+            "directly); the implementation returned a different instant, reading or error for this zone and input.",
+    },
+    "C14": {
+        "lean_modules": ["TemporalModel.Props.C14"],
+        "suites": ["c14"],
+        "spec_ops": {"zdt_law": "zdt_law_spec", "zdt_sod": "zdt_sod_spec", "zdt_hid": "zdt_hid_spec"},
+        "level_text": "Proof: C14_add_time_exact (no date units: exact instant addition, range-checked), C14_add_wall_then_exact "
+                      "(date units: date part on the wall-clock date, time of day kept, re-resolved with `compatible`, then the time "
+                      "part on the exact timeline), C14_until_exact_elapsed (largest unit hours..seconds: the exact elapsed time, zone "
+                      "irrelevant), C14_start_of_day_first (first instant reading midnight) and C14_start_of_day_gap (skipped "
+                      "midnight, any gap size: the transition instant, equal to the specification's first instant of the day), "
+                      "C14_hours_in_day. Tie: add/subtract/until/since (all largest units; time units with rounding)/start_of_day/"
+                      "hours_in_day/with_plain_time over fixed offsets and random synthetic zones with instants within a day of "
+                      "transitions; the inverse law a.add(a.until(b, date unit)) = b, the first-instant-of-day and real-day-length "
+                      "specifications are compared with the implementation directly (spec_ops).",
+        "level_note": "Trusted: as C13. until/since with date largest units AND rounding (RoundRelativeDuration with a time zone) "
+                      "is not modelled (the driver answers ?unmodelled for such lines; the generator does not produce them): that "
+                      "path is exercised by the C03 sweep only. The inverse law is checked, not proved.",
+        "why_difference_is_violation":
+            "The model performs date arithmetic on the wall clock and time arithmetic on the timeline as proved in C14_*; the "
+            "implementation returned a different instant, duration, start of day or day length.",
+    },
     "C17": {
         "lean_modules": ["TemporalModel.Props.C17"],
         "suites": ["c17"],
